@@ -109,17 +109,24 @@ class Ctx:
             return None
         return f
 
-    def floor(self, rule, what, count, minimum, config=None):
-        """fail closed if a rule matched fewer instances than were confirmed by hand"""
+    def floor(self, rule, what, count, minimum, config=None, slack=None):
+        """fail closed if a rule matched clearly fewer instances than were confirmed by hand: the analysis
+        going blind (an unresolved callee class, a moved anchor) drops a count towards zero, whereas a
+        refactoring that consolidates a couple of sites must not be reported — so counts above four tolerate
+        the loss of max(2, 20%) of the confirmed instances; small counts are exact"""
+        if slack is None:
+            slack = 0 if minimum <= 4 else max(2, minimum // 5)
+        confirmed = minimum
+        minimum = max(1, minimum - slack)
         self.check(
             count >= minimum,
             rule,
             "*",
             "floor:" + what,
             "?",
-            "rule %s matched %d instance(s) of `%s`, fewer than the %d confirmed on the reviewed tree; "
-            "an anchor moved or the analysis lost sight of it" % (rule, count, what, minimum),
-            "instance count %d >= floor %d" % (count, minimum),
+            "rule %s matched %d instance(s) of `%s`, clearly fewer than the %d confirmed on the reviewed tree (floor %d); "
+            "an anchor moved or the analysis lost sight of it" % (rule, count, what, confirmed, minimum),
+            "instance count %d >= floor %d (confirmed %d)" % (count, minimum, confirmed),
             config,
             nontrivial=False,
         )
